@@ -385,7 +385,7 @@ inline size_t gSizedObj(const galois::gdeque<T, CS>& data) {
 template <typename A>
 inline size_t
 gSizedObj(const std::basic_string<char, std::char_traits<char>, A>& data) {
-  return data.length() + 1;
+  return sizeof(data.length()) + data.length();
 }
 
 /**
@@ -555,7 +555,10 @@ template <typename A>
 inline void
 gSerializeObj(SerializeBuffer& buf,
               const std::basic_string<char, std::char_traits<char>, A>& data) {
-  buf.insert((uint8_t*)data.data(), data.length() + 1);
+  // length-prefixed: a std::string may hold '\0' characters
+  auto size = data.length();
+  gSerializeObj(buf, size);
+  buf.insert((uint8_t*)data.data(), size);
 }
 
 // Forward declaration of vector serialize
@@ -910,12 +913,10 @@ template <typename A>
 inline void
 gDeserializeObj(DeSerializeBuffer& buf,
                 std::basic_string<char, std::char_traits<char>, A>& data) {
-  data.clear();
-  char c = buf.pop();
-  while (c != '\0') {
-    data.push_back(c);
-    c = buf.pop();
-  };
+  typename std::basic_string<char, std::char_traits<char>, A>::size_type size;
+  gDeserializeObj(buf, size);
+  data.resize(size);
+  buf.extract((uint8_t*)&data[0], size);
 }
 
 // Forward declaration of vector deserialize
